@@ -335,6 +335,158 @@ Empty
 //@@ end
 }
 
+impl RequestBuilder {
+//@@ fn src/request/builder.rs impl~RequestBuilder with_settings props=C16
+//@@ contract
+        requires url_parse_spec(as_ref_str_spec(base_url)) is Some, method_bytes(&method) != connect_bytes(),   // documented: panics on an invalid URL or CONNECT
+        ensures res.sp_settings() == *base_settings && res.sp_headers() == base_settings.headers && res.sp_method() == method // id: request_starts_from_the_given_settings [C16]
+            && url_parse_spec(as_ref_str_spec(base_url)) == Some(res.sp_url()),
+//@@ end
+//@@ fn src/request/builder.rs impl~RequestBuilder try_new props=C16
+//@@ rw R1
+BaseSettings::default()
+//@@ =>
+BaseSettings::default_impl()
+//@@ contract
+        ensures
+            res matches Ok(r) ==> r.sp_method() == method && url_parse_spec(as_ref_str_spec(base_url)) == Some(r.sp_url()) // id: stand_alone_request_starts_from_the_defaults [C16,C14]
+                && !r.sp_settings().accept_invalid_certs && !r.sp_settings().accept_invalid_hostnames && hm_view(&r.sp_headers()).len() == 0,
+            res is Ok <==> (url_parse_spec(as_ref_str_spec(base_url)) is Some && method_bytes(&method) != connect_bytes()),
+//@@ end
+//@@ fn src/request/builder.rs impl~RequestBuilder new props=C16
+//@@ contract
+        requires url_parse_spec(as_ref_str_spec(base_url)) is Some, method_bytes(&method) != connect_bytes(),   // documented: panics otherwise
+        ensures res.sp_method() == method && url_parse_spec(as_ref_str_spec(base_url)) == Some(res.sp_url())
+            && !res.sp_settings().accept_invalid_certs && !res.sp_settings().accept_invalid_hostnames && hm_view(&res.sp_headers()).len() == 0,
+//@@ end
+}
+/// `Method::GET` .. `Method::TRACE` (associated consts of an external type)
+#[verifier::external_body] pub fn vp_method_get() -> (r: Method) ensures method_bytes(&r) == str_bytes("GET"@) { Method::GET }
+#[verifier::external_body] pub fn vp_method_post() -> (r: Method) ensures method_bytes(&r) == str_bytes("POST"@) { Method::POST }
+#[verifier::external_body] pub fn vp_method_put() -> (r: Method) ensures method_bytes(&r) == str_bytes("PUT"@) { Method::PUT }
+#[verifier::external_body] pub fn vp_method_delete() -> (r: Method) ensures method_bytes(&r) == str_bytes("DELETE"@) { Method::DELETE }
+#[verifier::external_body] pub fn vp_method_head() -> (r: Method) ensures method_bytes(&r) == str_bytes("HEAD"@) { Method::HEAD }
+#[verifier::external_body] pub fn vp_method_options() -> (r: Method) ensures method_bytes(&r) == str_bytes("OPTIONS"@) { Method::OPTIONS }
+#[verifier::external_body] pub fn vp_method_patch() -> (r: Method) ensures method_bytes(&r) == str_bytes("PATCH"@) { Method::PATCH }
+#[verifier::external_body] pub fn vp_method_trace() -> (r: Method) ensures method_bytes(&r) == str_bytes("TRACE"@) { Method::TRACE }
+/// none of them is CONNECT (assumed: distinct method tokens have distinct bytes)
+#[verifier::external_body] pub proof fn lemma_shortcut_methods_are_not_connect()
+    ensures str_bytes("GET"@) != connect_bytes(), str_bytes("POST"@) != connect_bytes(), str_bytes("PUT"@) != connect_bytes(), str_bytes("DELETE"@) != connect_bytes(),
+        str_bytes("HEAD"@) != connect_bytes(), str_bytes("OPTIONS"@) != connect_bytes(), str_bytes("PATCH"@) != connect_bytes(), str_bytes("TRACE"@) != connect_bytes() { }
+impl Session {
+//@@ fn src/request/session.rs impl~Session get props=C16
+//@@ rw R1
+Method::GET
+//@@ =>
+vp_method_get()
+//@@ splice before
+RequestBuilder::with_settings(
+//@@ with
+        proof { lemma_shortcut_methods_are_not_connect(); }
+//@@ contract
+        requires url_parse_spec(as_ref_str_spec(base_url)) is Some,   // documented: panics on an invalid URL
+        ensures res.sp_settings() == self@ && res.sp_headers() == self@.headers && method_bytes(&res.sp_method()) == str_bytes("GET"@) // id: request_is_created_with_the_sessions_current_settings [C16]
+            && url_parse_spec(as_ref_str_spec(base_url)) == Some(res.sp_url()),
+//@@ end
+//@@ fn src/request/session.rs impl~Session post props=C16
+//@@ rw R1
+Method::POST
+//@@ =>
+vp_method_post()
+//@@ splice before
+RequestBuilder::with_settings(
+//@@ with
+        proof { lemma_shortcut_methods_are_not_connect(); }
+//@@ contract
+        requires url_parse_spec(as_ref_str_spec(base_url)) is Some,   // documented: panics on an invalid URL
+        ensures res.sp_settings() == self@ && res.sp_headers() == self@.headers && method_bytes(&res.sp_method()) == str_bytes("POST"@) // id: request_is_created_with_the_sessions_current_settings [C16]
+            && url_parse_spec(as_ref_str_spec(base_url)) == Some(res.sp_url()),
+//@@ end
+//@@ fn src/request/session.rs impl~Session put props=C16
+//@@ rw R1
+Method::PUT
+//@@ =>
+vp_method_put()
+//@@ splice before
+RequestBuilder::with_settings(
+//@@ with
+        proof { lemma_shortcut_methods_are_not_connect(); }
+//@@ contract
+        requires url_parse_spec(as_ref_str_spec(base_url)) is Some,   // documented: panics on an invalid URL
+        ensures res.sp_settings() == self@ && res.sp_headers() == self@.headers && method_bytes(&res.sp_method()) == str_bytes("PUT"@) // id: request_is_created_with_the_sessions_current_settings [C16]
+            && url_parse_spec(as_ref_str_spec(base_url)) == Some(res.sp_url()),
+//@@ end
+//@@ fn src/request/session.rs impl~Session delete props=C16
+//@@ rw R1
+Method::DELETE
+//@@ =>
+vp_method_delete()
+//@@ splice before
+RequestBuilder::with_settings(
+//@@ with
+        proof { lemma_shortcut_methods_are_not_connect(); }
+//@@ contract
+        requires url_parse_spec(as_ref_str_spec(base_url)) is Some,   // documented: panics on an invalid URL
+        ensures res.sp_settings() == self@ && res.sp_headers() == self@.headers && method_bytes(&res.sp_method()) == str_bytes("DELETE"@) // id: request_is_created_with_the_sessions_current_settings [C16]
+            && url_parse_spec(as_ref_str_spec(base_url)) == Some(res.sp_url()),
+//@@ end
+//@@ fn src/request/session.rs impl~Session head props=C16
+//@@ rw R1
+Method::HEAD
+//@@ =>
+vp_method_head()
+//@@ splice before
+RequestBuilder::with_settings(
+//@@ with
+        proof { lemma_shortcut_methods_are_not_connect(); }
+//@@ contract
+        requires url_parse_spec(as_ref_str_spec(base_url)) is Some,   // documented: panics on an invalid URL
+        ensures res.sp_settings() == self@ && res.sp_headers() == self@.headers && method_bytes(&res.sp_method()) == str_bytes("HEAD"@) // id: request_is_created_with_the_sessions_current_settings [C16]
+            && url_parse_spec(as_ref_str_spec(base_url)) == Some(res.sp_url()),
+//@@ end
+//@@ fn src/request/session.rs impl~Session options props=C16
+//@@ rw R1
+Method::OPTIONS
+//@@ =>
+vp_method_options()
+//@@ splice before
+RequestBuilder::with_settings(
+//@@ with
+        proof { lemma_shortcut_methods_are_not_connect(); }
+//@@ contract
+        requires url_parse_spec(as_ref_str_spec(base_url)) is Some,   // documented: panics on an invalid URL
+        ensures res.sp_settings() == self@ && res.sp_headers() == self@.headers && method_bytes(&res.sp_method()) == str_bytes("OPTIONS"@) // id: request_is_created_with_the_sessions_current_settings [C16]
+            && url_parse_spec(as_ref_str_spec(base_url)) == Some(res.sp_url()),
+//@@ end
+//@@ fn src/request/session.rs impl~Session patch props=C16
+//@@ rw R1
+Method::PATCH
+//@@ =>
+vp_method_patch()
+//@@ splice before
+RequestBuilder::with_settings(
+//@@ with
+        proof { lemma_shortcut_methods_are_not_connect(); }
+//@@ contract
+        requires url_parse_spec(as_ref_str_spec(base_url)) is Some,   // documented: panics on an invalid URL
+        ensures res.sp_settings() == self@ && res.sp_headers() == self@.headers && method_bytes(&res.sp_method()) == str_bytes("PATCH"@) // id: request_is_created_with_the_sessions_current_settings [C16]
+            && url_parse_spec(as_ref_str_spec(base_url)) == Some(res.sp_url()),
+//@@ end
+//@@ fn src/request/session.rs impl~Session trace props=C16
+//@@ rw R1
+Method::TRACE
+//@@ =>
+vp_method_trace()
+//@@ splice before
+RequestBuilder::with_settings(
+//@@ with
+        proof { lemma_shortcut_methods_are_not_connect(); }
+//@@ contract
+        requires url_parse_spec(as_ref_str_spec(base_url)) is Some,   // documented: panics on an invalid URL
+        ensures res.sp_settings() == self@ && res.sp_headers() == self@.headers && method_bytes(&res.sp_method()) == str_bytes("TRACE"@) // id: request_is_created_with_the_sessions_current_settings [C16]
+            && url_parse_spec(as_ref_str_spec(base_url)) == Some(res.sp_url()),
+//@@ end
+}
 /// framing headers the property prescribes for a body kind: Content-Length equal to the body octet count, or chunked, never both;
 /// neither for an empty body
 pub open spec fn framing_headers_ok(h: &HeaderMap, kind: BodyKind) -> bool {
